@@ -34,6 +34,10 @@ CLAIMED = {
          "static analysis: panic-site provers with inductive invariants, combinator and format-template table extraction"),
  'C02': ("decides for all byte strings: value-start dispatch table over all 256 bytes, whitespace set, the eight escape decodings, agreement of scanner and decoder escape widths, trailing-input check, number classification (u64 / i64 / correctly rounded f64), last-duplicate-wins insertion, panic inventory of the parser cone, surrogate ranges and formula, and that each of the 24 accepting paths of the number lexer matches the RFC 8259 number grammar; recursion on nesting is a known finding. Full language equality and the meaning of accepted strings are NOT decided",
          "static analysis: byte-class tables by interval sets, path-language matching of the lexer against the RFC regular expression, panic-site provers, call-graph SCCs"),
+ 'C06': ("decides for all valid inputs: documented errors precede writes; every copied (entry word, payload) pair comes from one source; builders return exactly the bytes they append (exact rebuilt lengths at any depth); object-header writers emit keys from an ordered map; signed positions are cast to usize only where provably non-negative; in every entry-copying loop an entry is either copied or dropped under the edit's own condition; iterator cursors follow the layout. Equality of the output with the tree edit beyond these clauses is NOT decided",
+         "static analysis: provenance of call arguments, path-wise ghost-length accounting, interval facts on casts, per-editor drop-condition tables over loop paths"),
+ 'C07': ("decides the inductive step 'canonical in => canonical out' structurally for every writer: consistent raw copies, measured lengths in encoder and builders, ordered unique keys for every object-header writer, exact re-wrap and exact (offset, length) positions in the selector, and that no other function writes a container header. Equality with the tree result along a history is NOT decided",
+         "static analysis: compositional writer rules (provenance, ghost accounting, who-may-write) over MIR"),
 }
 NOT_APPLICABLE = {
 }
